@@ -92,3 +92,41 @@ func init() {
 		},
 	}
 }
+
+func init() {
+	plans["C06"] = &plan{
+		level: "model_checking",
+		rule: "RoundTrip.tla enumerates the structure bracketing and spacing depend on: every term shape of depth <= 2 over 17 atom classes, 7 number classes, variables, 6 prefix / 13 infix / 2 postfix operator functors (default and " +
+			"user-defined, an atom that is prefix and infix at once, ',' and '|'), compounds, lists, partial lists, curly terms - every (context operator, operand kind) pair on the left and on the right - x 5 operator tables reached by " +
+			"op/3 histories x 4 writers x 3 double_quotes settings (quick: a covering selection of the combinations). The replayer concretises each class with seeded samples, builds the term without the reader, writes it, appends ' .' " +
+			"and reads it back in the same interpreter: the law Variant(Read(Write(T)), T), floats bit for bit. numtrip: number_codes/2, number_chars/2 and writeq/read_term on seeded random doubles of all exponents, hard cases and " +
+			"64-bit integers. distinct_nontrivial = distinct cases with an operator functor or an atom that needs quoting",
+		assume:  []string{"'$VAR'(N) terms are not generated (excluded by the property)", "characters and float digits are reached through sampled concretisations of lexical classes, not enumerated (TLA+ has neither)"},
+		trusted: []string{"TLC", "RoundTrip.tla (enumeration and law; the oracle is the law itself)", "atom_codes/2 and =../2 as the parser-free way of building the term"},
+		run: func(c *checkCtx) {
+			r := c.mcHolds("RoundTrip", "RoundTrip_"+c.tier+".cfg", tlcOpts{})
+			rounds := "2"
+			if c.tier == "thorough" {
+				rounds = "4"
+			}
+			cases, results := c.replay("roundtrip", r.cases, replayOpts{chunk: 16, opts: map[string]string{"seed": strconv.FormatInt(c.seed, 10), "rounds": rounds}})
+			c.judge("roundtrip", cases, results, func(cs, res map[string]J) string {
+				b, _ := json.Marshal(cs["term"])
+				if strings.Contains(string(b), `"pre"`) || strings.Contains(string(b), `"inf"`) || strings.Contains(string(b), `"post"`) || strings.Contains(string(b), "quoted") {
+					in, _ := res["input"].(string)
+					return in
+				}
+				return ""
+			})
+			n := 20000
+			if c.tier == "thorough" {
+				n = 300000
+			}
+			gen := filepath.Join(c.work, "numtrip.ndjson")
+			c.vhRun("gen", "numtrip", "--seed", strconv.FormatInt(c.seed, 10), "--n", strconv.Itoa(n), "--out", gen)
+			nc, nr := c.replay("numtrip", gen, replayOpts{chunk: 256})
+			c.judge("numtrip", nc, nr, func(cs, res map[string]J) string { in, _ := res["input"].(string); return in })
+			c.exhaustive = false
+		},
+	}
+}
